@@ -365,6 +365,29 @@ def run(ctx):
     readdir_classification(ctx, "C10")
 
     readdir_does_not_follow_links(ctx, "C10")
+    # references into the context cache stay valid for the whole tick (plugins hold ConstCgroupContextRef across further lookups):
+    # entries leave OomdContext::cgroups_ only in OomdContext::refresh(), between ticks
+    n_rm = 0
+    for f in P.fns.values():
+        for i, n in enumerate(f.nodes):
+            if n["k"] != "call" or f.pos_of(i) is None or "recv" not in n:
+                continue
+            r = f.nodes[f.strip(n["recv"])]
+            if r["k"] != "member" or r.get("qname") != "Oomd::OomdContext::cgroups_":
+                continue
+            nm = n.get("cname") or ""
+            if nm in ("erase", "clear", "extract", "swap", "merge", "operator=", "insert_or_assign", "rehash") or n.get("op") == "=":
+                n_rm += 1
+                owner = f
+                while owner.kind == "lambda" and owner.d.get("parentfn") in P.fns:
+                    owner = P.fns[owner.d["parentfn"]]
+                okc = owner.pq == "Oomd::OomdContext::refresh" or (nm in ("operator=", "swap") and owner.kind in ("ctor", "method") and owner.name in ("OomdContext", "operator="))
+                ctx.check(okc, "context-cache-stable-within-tick:%s@%s" % (short(owner), nm), "who-may-write (removal)", f.loc(i),
+                          "cached cgroup contexts are dropped only by refresh(), between ticks",
+                          "%s removes or replaces entries of the context cache outside refresh(): references handed out earlier in the same tick "
+                          "(kill candidates, parent contexts held across lookups) dangle, and the tick continues on freed memory" % short(owner))
+    ctx.counters["context_cache_removals"] = n_rm
+    ctx.floor("context_cache_removals", 1, "removal of entries from OomdContext::cgroups_ (refresh)")
     # ------------------------------------------------ (iv) erase in iteration (tick-reachable)
     n_loops = 0
     for u in sorted(tick_fns):
